@@ -193,6 +193,7 @@ pub struct Pipe {
     pub rwaker: Option<Waker>,
     pub scribble: bool,
     pub coalesce: bool,
+    pub glitch: Option<u8>,
     pub inbound_len: usize,
     pub delivered: usize,
     pub consumed: usize,
@@ -222,6 +223,7 @@ impl Pipe {
             rwaker: None,
             scribble,
             coalesce,
+            glitch: None,
             inbound_len: 0,
             delivered: 0,
             consumed: 0,
@@ -237,7 +239,7 @@ impl Pipe {
         }
     }
     pub fn readable(&self) -> bool {
-        !self.avail.is_empty() || ((self.eof || self.rerr) && !self.end_seen)
+        !self.avail.is_empty() || ((self.eof || self.rerr) && !self.end_seen) || self.glitch.is_some()
     }
     pub fn write_blocked(&self) -> bool {
         self.wblock_after == Some(0)
@@ -273,6 +275,18 @@ impl AsyncRead for SimReader {
         if buf.is_empty() {
             p.shared.push(Ev::ReadZeroLenBuf { conn });
             return Poll::Ready(Ok(0));
+        }
+        if let Some(k) = p.glitch.take() {
+            // a transient failure: reported once, whatever is available stays available
+            p.end_seen = true;
+            p.shared.push(Ev::ReadErr { conn });
+            let kind = match k {
+                0 => io::ErrorKind::Interrupted,
+                1 => io::ErrorKind::WouldBlock,
+                2 => io::ErrorKind::TimedOut,
+                _ => io::ErrorKind::Other,
+            };
+            return Poll::Ready(Err(io::Error::new(kind, "simulated transient read error")));
         }
         if let Some(front) = p.avail.front_mut() {
             let mut n = front.len().min(buf.len());
@@ -1137,6 +1151,19 @@ impl World {
                             }
                             drop(p);
                             self.fired(if matches!(kind, FaultKind::ReadEof) { "read_eof" } else { "read_err" });
+                        }
+                        FaultKind::ReadGlitch { kind } => {
+                            if p.eof || p.rerr || p.glitch.is_some() {
+                                drop(p);
+                                skip(self, "read side already closed");
+                                return;
+                            }
+                            p.glitch = Some(*kind);
+                            if let Some(w) = p.rwaker.take() {
+                                w.wake();
+                            }
+                            drop(p);
+                            self.fired("read_glitch");
                         }
                         FaultKind::WriteErr { after } => {
                             p.werr_after = Some(*after);
